@@ -191,6 +191,8 @@ class StereoCondensedReactionGraph(StereoMolGraph, CondensedReactionGraph):
             del self._atom_stereo_change[atom]
         else:
             del self._atom_stereo_change[atom][stereo_change]
+            if not self._atom_stereo_change[atom]:
+                del self._atom_stereo_change[atom]
 
     def delete_bond_stereo_change(
         self, bond: Iterable[AtomId], stereo_change: Optional[Change] = None
@@ -200,6 +202,8 @@ class StereoCondensedReactionGraph(StereoMolGraph, CondensedReactionGraph):
             del self._bond_stereo_change[bond]
         else:
             del self._bond_stereo_change[bond][stereo_change]
+            if not self._bond_stereo_change[bond]:
+                del self._bond_stereo_change[bond]
 
     def remove_atom(self, atom: AtomId):
         """Removes an atom from the graph and deletes all stereo information
